@@ -18,6 +18,7 @@ KEYS = {
     "numbits": "cxx/BitEntry::SetNumBits(const char*)-stores-unparsed-code",
     "elem": "cxx/string-scalar-setters/carray-element-code-not-read-back",
     "rename": "cxx/Entry::Rename-object-name-not-updated",
+    "fragfail": "cxx/Fragment::SetPrefix-SetSuffix/failed-call-leaves-freed-affixes",
 }
 
 
@@ -29,6 +30,12 @@ def classify(op):
         return KEYS["numbits"] if (op.endswith(" library") or op.endswith(" object")) else KEYS["elem"]
     if "scalar-element" in op:
         return KEYS["elem"]
+    if op.startswith("Fragment cached pointer dangles") and "failed" in op:
+        return KEYS["fragfail"]
+    if op.startswith("Fragment cached pointer dangles"):
+        return "cxx/Fragment-cached-pointer-dangles"
+    if op.startswith("Fragment accessors after"):
+        return "cxx/Fragment-accessor-stale"
     if op.startswith("Entry::Rename") or op.startswith("Entry::Move"):
         return KEYS["rename"]
     return None
@@ -54,6 +61,30 @@ def make_dirfile(d, rng, variant):
     if variant == 1:      # dangling inputs
         fmt += ["dang LINCOM nosuch 1 0", "dang2 MULTIPLY data nosuch2", "/ALIAS dal nosuch3", "dang3 BIT data nosuchconst 1",
                 "data/mdang PHASE nosuch4 1", "/ALIAS data/madang nosuch5"]
+        # {top-level, metafield} x {hidden, visible} x {invalid field, dangling alias, alias of an invalid field,
+        # alias of a valid field, valid field}: a random subset of all the combinations
+        k = 0
+        for parent in (None, "data", "flt"):
+            for hidden in (False, True):
+                for kind in ("invalid", "dangling-alias", "alias-of-invalid", "alias-of-valid", "valid"):
+                    if rng.random() < 0.45:
+                        continue
+                    k += 1
+                    nm = "%sc%d" % ("h" if hidden else "v", k)
+                    code = nm if parent is None else parent + "/" + nm
+                    if kind == "invalid":
+                        fmt.append("%s %s nosuchf%d %s" % (code, rng.choice(["LINCOM", "PHASE", "RECIP"]), k, rng.choice(["1 0", "3"])) if False else
+                                   "%s LINCOM nosuchf%d 1 0" % (code, k))
+                    elif kind == "dangling-alias":
+                        fmt.append("/ALIAS %s nosucht%d" % (code, k))
+                    elif kind == "alias-of-invalid":
+                        fmt.append("/ALIAS %s dang" % code)
+                    elif kind == "alias-of-valid":
+                        fmt.append("/ALIAS %s fast" % code)
+                    else:
+                        fmt.append("%s PHASE data %d" % (code, k))
+                    if hidden:
+                        fmt.append("/HIDDEN %s" % code)
     if variant == 2:      # syntax errors
         fmt.insert(6, "bad RAWX UINT8 1")
         fmt.append("lin2 LINCOM 7 data")
@@ -199,6 +230,12 @@ def build_tools(impl):
             for u in ("dirfile2ascii", "checkdirfile"):
                 cmds.append("gcc %s -I%s/src %s/%s.c -o %s/%s %s/libgetdata.a %s" % (cf, impl, util, u, d, u, impl, ld))
             cmds.append("gcc %s -I%s/src %s/harness/C20/utilref.c -o %s/utilref %s/libgetdata.a %s" % (cf, impl, vlib.VERIF, d, impl, ld))
+            # the same differential driver under AddressSanitizer (library and binding both instrumented)
+            aimpl = vlib.build_impl("asan")
+            acf = open(os.path.join(aimpl, "cflags")).read().strip()
+            ald = open(os.path.join(aimpl, "ldflags")).read().strip()
+            cmds.append("g++ -std=gnu++11 %s -I%s -I%s/src %s/harness/C20/cxxdiff.cpp %s/*.cpp -o %s/cxxdiff_asan %s/libgetdata.a %s" % (
+                acf, cxx, aimpl, vlib.VERIF, cxx, d, aimpl, ald))
             from concurrent.futures import ThreadPoolExecutor
             with ThreadPoolExecutor(4) as ex:
                 res = list(ex.map(lambda c: vlib.sh(c, timeout=900), cmds))
@@ -256,20 +293,27 @@ def main():
     rounds = 60 if not chk.thorough else 250
     ncmp = 0
     diffs = {}
-    for i in range(ndf):
-        for variant, extra in ((0, []), (1, []), (2, []), (2, ["%x" % 0x1, "cb"]), (1, ["%x" % 0x0])):
+    runs = [(i, variant, extra, "cxxdiff") for i in range(ndf)
+            for variant, extra in ((0, []), (1, []), (2, []), (2, ["%x" % 0x1, "cb"]), (1, ["%x" % 0x0]))]
+    # AddressSanitizer runs: read-write and read-only twins (a setter that fails must not leave the object dangling)
+    runs += [(i, variant, extra, "cxxdiff_asan") for i in range(2 if not chk.thorough else 8)
+             for variant, extra in ((0, []), (1, ["%x" % 0x0]), (1, []))]
+    for i, variant, extra, binary in runs:
+        if True:
             a, b = os.path.join(work, "A"), os.path.join(work, "B")
             sub = vlib.random.Random(rng.getrandbits(32))
             make_dirfile(a, sub, variant)
             shutil.rmtree(b, ignore_errors=True)
             shutil.copytree(a, b)
             seed = rng.getrandbits(31)
-            args = [os.path.join(tools, "cxxdiff"), a, b, str(seed), str(rounds)] + (extra if extra else ["1"])
-            rc, out = vlib.sh(args, timeout=120)
+            args = [os.path.join(tools, binary), a, b, str(seed), str(rounds if binary == "cxxdiff" else max(10, rounds // 4))] + (extra if extra else ["1"])
+            rc, out = vlib.sh(args, timeout=300, env={"ASAN_OPTIONS": "detect_leaks=0:abort_on_error=0", "UBSAN_OPTIONS": "print_stacktrace=1"})
             lines = out.splitlines()
             done = [l for l in lines if l.startswith("DONE ")]
             if rc != 0 or not done:
-                chk.violation("cxx/harness-crash", "cxxdiff died (rc=%d) on variant %d seed %d: %s" % (rc, variant, seed, out[-400:]),
+                san = re.search(r"ERROR: AddressSanitizer: ([\w-]+)[^\n]*(?:\n[^\n]*){0,12}?\n\s+#\d+ [^\n]* in (GetData::[\w:~]+)", out)
+                key = "cxx/harness-crash" if not san else "cxx/memory-error/%s-in-%s" % (san.group(1), san.group(2))
+                chk.violation(key, "%s died (rc=%d) on variant %d seed %d args %s: %s" % (binary, rc, variant, seed, args[3:], (out[out.find("ERROR: AddressSanitizer"):][:700] if san else out[-400:])),
                               {"kind": "crash", "variant": variant, "seed": seed, "args": args[3:], "format": open(os.path.join(a, "format")).read() if os.path.exists(os.path.join(a, "format")) else ""})
                 found_any = True
                 continue
